@@ -380,7 +380,7 @@ OPS = [("read", 1, True), ("read", 2, True), ("read", 4, True), ("read", 1, Fals
 
 def geometries(tier):
     if tier == "quick":
-        return [(0, 0, 1), (1, 0, 2), (0, 1, 2), (1, 1, 1)]
+        return [(0, 0, 1), (1, 0, 2), (0, 1, 2)]
     gs = []
     for ib in (0, 1, 2):
         for bb in (0, 1, 2):
@@ -534,7 +534,7 @@ def history_jobs(tier, props, module):
                 if repl == "plru" and (ways & (ways - 1) or ways == 1 and (ib, bb) != (0, 0)):
                     continue
                 for i, sq in enumerate(seqs):
-                    if tier == "quick" and i % 5 != (ib + bb + ways) % 5:
+                    if tier == "quick" and i % 10 != (ib + bb + ways) % 10:
                         continue
                     if not any(x.startswith("w") for x in sq):
                         continue
